@@ -556,6 +556,23 @@ Proof.
     + destruct (Hdiff E) as [D1 _]. rewrite D1. lia.
 Qed.
 
+(* a transaction refused by anything but validateBasic (2) or the recovered ante panic (10) leaves the block gas meter alone *)
+Lemma rejected_block_gas e s t o why :
+  snd (deliver e s t o) = Rejected why -> why <> 2 -> why <> 10 ->
+  s_bgas (fst (deliver e s t o)) = s_bgas s.
+Proof.
+  unfold deliver.
+  set (w := admit_reason e (aget 0 (s_bal s) (t_from t)) (aget None (s_nonce s) (t_from t)) (s_bgas s) t).
+  destruct ((w =? 2) || (w =? 10)) eqn:E1.
+  { simpl. intros H H2 H10. inversion H; subst why.
+    apply orb_prop in E1. destruct E1 as [E1|E1]; apply Z.eqb_eq in E1; congruence. }
+  destruct (w =? 0) eqn:E0; simpl negb; cbv iota; [|simpl; reflexivity].
+  intros H _ _. exfalso. revert H.
+  repeat match goal with
+  | |- context [if ?c then _ else _] => destruct c
+  end; simpl; discriminate.
+Qed.
+
 (* ---------------- block gas: what is executed and kept fits in the block ---------------- *)
 Definition done_gas (p : tx * result) : Z := match snd p with Done g _ => g | _ => 0 end.
 
